@@ -967,10 +967,6 @@ class Server:
             restart_offset=0,
             _dispatcher=get_current_task(),
         )
-        connection.path_io = self.path_io_factory(
-            timeout=self.path_timeout,
-            connection=connection,
-        )
         pending = {
             response_writer,
             asyncio.create_task(self.parse_command(stream)),
@@ -978,6 +974,12 @@ class Server:
         self.connections[key] = connection
         handlers = set()
         try:
+            # (inside `try`: session which can not get its path io ends like
+            # any other one, nothing of it is left)
+            connection.path_io = self.path_io_factory(
+                timeout=self.path_timeout,
+                connection=connection,
+            )
             # session is admitted or refused before any of its commands is
             # looked at: refused one is not served while its "421" is written
             if not await self.greeting(connection, ""):
